@@ -183,12 +183,21 @@ PROPS["C16"] = {
         H("print_string_single_line_n2_outside_known", "nitrogql-printer", PR + "graphql_printer/utils.rs", "printer/print_string_h.rs", "verif_print_string",
           ["graphql_printer::utils::print_string"], "strings of 0..2 chars from {a, CR, U+0001, e-acute, U+1F600, /} (no LF: single-line path; no double quote, no backslash: outside the recorded finding)",
           timeout=1800, mem_gb=20),
+        H("print_string_block_n2_outside_known", "nitrogql-printer", PR + "graphql_printer/utils.rs", "printer/print_string_h.rs", "verif_print_string",
+          ["graphql_printer::utils::print_string"], "multi-line strings of 1..2 chars from {LF, \", \\, a, space} containing LF and NOT ending in \" or \\; lexical form only",
+          timeout=2400, mem_gb=20),
+        H("print_string_block_n2_known_trailing_quote_backslash", "nitrogql-printer", PR + "graphql_printer/utils.rs", "printer/print_string_h.rs", "verif_print_string",
+          ["graphql_printer::utils::print_string"], "multi-line strings of 2 chars from the same alphabet ENDING in \" or \\ (the recorded finding)",
+          timeout=2400, mem_gb=20, expect="fail", has_mutant=False),
         H("print_string_block_n3_outside_known", "nitrogql-printer", PR + "graphql_printer/utils.rs", "printer/print_string_h.rs", "verif_print_string",
           ["graphql_printer::utils::print_string"], "multi-line strings of 1..3 chars from {LF, \", \\, a, space} containing LF and NOT ending in \" or \\; lexical form only",
-          timeout=2400, mem_gb=20),
+          tiers=("thorough",), timeout=3600, mem_gb=24),
         H("print_string_block_n3_known_trailing_quote_backslash", "nitrogql-printer", PR + "graphql_printer/utils.rs", "printer/print_string_h.rs", "verif_print_string",
           ["graphql_printer::utils::print_string"], "multi-line strings of 2..3 chars from the same alphabet ENDING in \" or \\ (the recorded finding)",
-          timeout=2400, mem_gb=20, expect="fail", has_mutant=False),
+          tiers=("thorough",), timeout=3600, mem_gb=24, expect="fail", has_mutant=False),
+        H("print_string_control_chars_real_format", "nitrogql-printer", PR + "graphql_printer/utils.rs", "printer/print_string_h.rs", "verif_print_string",
+          ["graphql_printer::utils::print_string"], "one character from {U+000B, U+001F, U+007F, a}; format! is NOT stubbed (the real core::fmt runs)",
+          tiers=("thorough",), timeout=3600, mem_gb=20),
         H("print_string_single_line_n2_known_quote_backslash", "nitrogql-printer", PR + "graphql_printer/utils.rs", "printer/print_string_h.rs", "verif_print_string",
           ["graphql_printer::utils::print_string"], "strings of 1..2 chars from {\", \\, a, CR, U+0001, e-acute, U+1F600, /} containing at least one double quote or backslash (the recorded finding)",
           timeout=1800, mem_gb=20, expect="fail", has_mutant=False),
